@@ -70,7 +70,8 @@ OUT = os.environ.get('VERIF_OUT') or ROOT     # scratch output root for runs aga
 def write_replay(prop, r, kind, extra=None):
     d = os.path.join(OUT, 'replays', prop)
     os.makedirs(d, exist_ok=True)
-    safe = r['oid'].replace('/', '_').replace('[', '.').replace(']', '').replace('+', 'p')
+    import re
+    safe = re.sub(r'[^A-Za-z0-9_.-]', '_', r['oid'].replace('/', '_').replace('[', '.').replace(']', '').replace('+', 'p'))   # shell-safe
     path = os.path.join(d, safe + '.json')
     doc = dict(property=prop, obligation=r['oid'], module=r['module'], cls=r['cls'], grid=r['grid'], kind=kind,
                cex=r.get('cex'), bounded=r.get('bounded'), solver=r.get('error'), results=[x for x in r['results'] if x[1] != 'proved'][:20],
@@ -242,6 +243,9 @@ def main(argv=None):
     for line in viol:
         print(line)
     wall = time.time() - t0
+    if canaries == 0 and not a.only:
+        faults.append('no canary was refuted and replayed in this run (vacuity guard)')
+        print('CHECKER-FAULT: no canary refuted+replayed')
     if n_obl + len(kf_lines) + len(bounded_runs) == 0:
         faults.append('zero obligations generated')
         print('CHECKER-FAULT: zero obligations')
